@@ -578,7 +578,27 @@ func runC05(e *Engine, r *Report, tier string) {
 			}
 			C := cs.Caller
 			ck := e.FnKey(C) + " -> " + e.FnKey(rf)
-			// followed by delete(0x48) on every path to return
+			// followed by delete(0x48) on every path to return — or the refund routine itself deletes the record on every
+			// one of its success paths (the delete may live on either side of the call)
+			delPred := func(i ssa.Instruction) bool {
+				c, ok := i.(ssa.CallInstruction)
+				if !ok {
+					return false
+				}
+				if e.callDirectOp(c, cc, "48", "delete") {
+					return true
+				}
+				for _, f := range e.calleesOf(c) {
+					if e.HasTransEffect(f, cc, "48", "delete") {
+						return true
+					}
+				}
+				return false
+			}
+			if e.HasTransEffect(rf, cc, "48", "delete") && MustPassThrough(rf, nil, delPred) == nil {
+				r.Ok("R3", ck, e.InstrPos(cs.Call), "the refund routine deletes the outgoing bridge call on every success path")
+				continue
+			}
 			off := ReachAvoiding(C, cs.Call, func(i ssa.Instruction) bool { _, ok := i.(*ssa.Return); return ok }, func(i ssa.Instruction) bool {
 				c, ok := i.(ssa.CallInstruction)
 				if !ok {
